@@ -451,6 +451,7 @@ MODEL_FILES = [
     ("models in the order 5, 2, 9 (first model is not the smallest)", [5, 5, 2, 2, 9]),
     ("a single model 4", [4, 4, 4]),
     ("models 0 and 1", [0, 0, 1]),
+    ("models 1 and 0 (a model number that is false as a boolean, not first)", [1, 1, 0]),
     ("atoms of models 1 and 2 interleaved", [1, 2, 1, 2]),
 ]
 
